@@ -1171,6 +1171,15 @@ pub fn mon_c13_flow(log: &[Rec], m: &mut Mon) {
         Schedule(TimingSnap),
         WaitingForReboot,
     }
+    // the machine never sits on an emission while holding the app-set lock it shares with its embedder
+    // (an observer that looks at the app set before polling again would wait for the producer, which waits
+    // for the observer's next poll)
+    let blocked = log.iter().find(|r| matches!(r.ev, Ev::ObserverBlocked { .. }));
+    m.judge("c13-no-shared-lock-held-across-emission", blocked.is_none(), "", || {
+        let b = blocked.unwrap();
+        let prev = log.iter().rev().find(|r| r.seq < b.seq && matches!(r.ev, Ev::Taken(_))).map(|r| format!("{:?}", r.ev)).unwrap_or_default();
+        format!("after taking {} (seq {}) the observer cannot lock the shared app set: the producer holds it while parked on the emission", prev.chars().take(80).collect::<String>(), b.seq)
+    });
     let mut need: Option<(Need, u64)> = None;
     let mut sent: Vec<u32> = vec![];
     let mut taken_progress: Vec<u32> = vec![];
